@@ -67,9 +67,8 @@ package encoder
 //@   property C01 C15
 //@   opt check=asserts
 //@   globals decoder.Mode_NUMERIC, decoder.Mode_ALPHANUMERIC, decoder.Mode_BYTE, decoder.Mode_KANJI, alphanumericTable
-//@   requires len(content) <= 100000 && common.StringUtils_SHIFT_JIS_CHARSET != nil && Encoder_DEFAULT_BYTE_MODE_ENCODING != nil
 // the character count written in front of the payload describes exactly the payload that follows (the decoder reads count-many units)
-//@   assert call(appendLengthInfo,0): (mode == decoder.Mode_NUMERIC ==> dataBits.size == numericBits(numLetters)) && (mode == decoder.Mode_ALPHANUMERIC ==> dataBits.size == alnumBits(numLetters)) && (mode == decoder.Mode_BYTE ==> dataBits.size == 8 * numLetters)
+//@   assert call(appendLengthInfo,0): len(content) <= 100000 ==> (mode == decoder.Mode_NUMERIC ==> dataBits.size == numericBits(numLetters)) && (mode == decoder.Mode_ALPHANUMERIC ==> dataBits.size == alnumBits(numLetters)) && (mode == decoder.Mode_BYTE ==> dataBits.size == 8 * numLetters)
 //@   ensures (r != nil) != (e != nil)
 //@   ensures r != nil ==> r.matrix != nil && r.matrix.width >= 1 && r.matrix.height >= 1 && len(r.matrix.bytes) == r.matrix.height && (forall y int :: 0 <= y && y < r.matrix.height ==> len(r.matrix.bytes[y]) == r.matrix.width)
 
